@@ -39,6 +39,7 @@ fn main() {
             props::c15_int(&st, thorough, seed);
             props::c15_oid_etc(&st, thorough, seed);
             props::c15_msgs(&st, thorough, seed);
+            props::c15_priv_msgs(&st, thorough, seed);
         }
         "c16" => {
             props::c16_values(&st, thorough, seed);
